@@ -69,6 +69,10 @@ def run(ctx: Ctx):
         ctx.guarded(layout_only, ctx, fi)
         ctx.guarded(axis_live, ctx, fi)
         ctx.guarded(shape_by_position, ctx, fi)
+    from .shapeseq import skip_arity
+
+    res.rule("SKIP-ARITY", "partial_unfold: the shape handed to the final reshape consists of exactly skip_begin leading mode sizes, the unfolded block, and exactly skip_end trailing mode sizes (symbolic list lengths as linear forms over the parameters and the tensor order; both ravel options)", floor=2)
+    ctx.guarded(skip_arity, ctx, "SKIP-ARITY")
     ctx.guarded(inverse_mirror, ctx, fis["unfold"], fis["fold"])
     ctx.guarded(inverse_mirror, ctx, fis["partial_unfold"], fis["partial_fold"])
     ctx.guarded(forward, ctx, fis["partial_tensor_to_vec"], fis["partial_unfold"], {"mode": 0, "ravel_tensors": True})
